@@ -1,7 +1,7 @@
 """Random write-script generators for the muxer harness (seeded; the quantifier space of C01-C05, C18, C19)."""
 import random
 
-VIDEO = ["h264", "vp9", "av1"]
+VIDEO = ["h264", "vp9", "av1", "h265"]
 FPS_DUR = [3750, 3600, 3003, 3000, 1800, 1500, 1501, 6000, 9000]  # 24, 25, 29.97, 30, 50, 60, 59.94, 15, 10 fps at 90 kHz
 AAC_RATES = [44100, 48000, 32000, 16000]
 
